@@ -161,6 +161,11 @@ def binary_docs(rng, quick):
             wrapper = rng.choice([b"Add", b"Change", b"ApplicationData", b"Fetch", b"Replace"])
             out.append(("binary", b'<?xml version="1.0"?>' + dt + b"<Sync xmlns='AirSync:'><Commands><%s><Item><%s xmlns='%s'>%s</%s></Item><ServerId>1</ServerId></%s></Commands></Sync>"
                         % (wrapper, tag, ns, p, tag, wrapper)))
+    # mixed content of a binary-flagged element: every run of base64 text is decoded on its own, in front of the child that
+    # follows it (/repo c0648d3: the flush also runs when a child element starts)
+    for mixed in (b"Zg==<SmartReply/>b28=", b"Zg==<SmartReply/>", b"<SmartReply/>b28=", b"Zm9v<SmartReply>YmFy</SmartReply>YmF6", b"!!<SmartReply/>b28=", b"Zg==<SmartReply/>!!",
+                  b"Zg==<a/><b/>b28=<c/>", b" <SmartReply/> ", b"Zg==<MIME>b28=</MIME>Zg==", b"Zg==<![CDATA[x]]><SmartReply/>b28="):
+        out.append(("binary", b'<?xml version="1.0"?>' + ACTIVESYNC + b"<SmartForward xmlns='ComposeMail:'><MIME>" + mixed + b"</MIME></SmartForward>"))
     # a binary element at the nesting limit: its child is refused, the cached text is still decoded at the child's end tag
     for payload in (b"YWJj", b"!!!!"):
         for depth in (997, 998, 999):
